@@ -1319,6 +1319,13 @@ class FA:
                         adt, var = self._variant_test(t)
                         if sv[1] == adt:
                             v = ("b", sv[2] == var)
+                if v is None and not d["p"] and self._variant_test(t) is not None:
+                    # variant not known yet: remember that the subject is what this call looked at; the branch on the
+                    # call's result then tells the variant (unless the subject was assigned in between: any assignment
+                    # replaces the marker)
+                    subj = self._variant_test_subject(t)
+                    if subj is not None and subj in self.tracked and subj != d["l"]:
+                        env[subj] = ("untested", bb)
                 if v is None and not d["p"] and self.b.locals[d["l"]] == "bool":
                     v = ("call", bb, False)
                 self._kill(env, d["l"])
@@ -1348,6 +1355,16 @@ class FA:
                         for l2, v2 in list(e2.items()):
                             if l2 != p["l"] and v2[0] == "call" and v2[1] == v[1]:
                                 e2[l2] = ("b", truth != v2[2])
+                        # the call was `x.is_some()` & co. and x is untouched since: this arm fixes x's variant
+                        ct = self.b.blocks[v[1]]["term"]
+                        vt = self._variant_test(ct) if ct["t"] == "call" else None
+                        if vt is not None:
+                            subj = self._variant_test_subject(ct)
+                            if subj is not None and e2.get(subj) == ("untested", v[1]):
+                                adt, var = vt
+                                if not truth:
+                                    var = {"Ok": "Err", "Err": "Ok", "Some": "None", "None": "Some"}[var]
+                                e2[subj] = ("v", adt, var, ())
                     out.append((x, self._freeze(e2)))
                 return out
             elif v is not None and v[0] == "disc" and t.get("enum_variants"):
